@@ -553,13 +553,13 @@ where
 pub fn search_cfg(tier: Tier) -> SearchCfg {
     match tier {
         Tier::Quick => SearchCfg { max_steps: 60_000, max_vars: 30, max_results: usize::MAX },
-        Tier::Thorough => SearchCfg { max_steps: 1_500_000, max_vars: 45, max_results: usize::MAX },
+        Tier::Thorough => SearchCfg { max_steps: 600_000, max_vars: 45, max_results: usize::MAX },
     }
 }
 
 pub fn run(cfg: &RunCfg, rep: &mut Report) {
     let world = World::new(cfg.seed);
-    let total = cfg.n_cases(16_000, 400_000);
+    let total = cfg.n_cases(16_000, 110_000);
     let max_nodes = if cfg.tier == Tier::Thorough { 14 } else { 9 };
     let scfg = search_cfg(cfg.tier);
     if cfg.only_case.is_none() {
